@@ -1030,7 +1030,7 @@ func genReq(t *rapid.T, M uint32, dotu, auth bool) Req {
 			r.Knob = maxn
 		}
 	case "read", "aread":
-		r.Knob = rapid.SampledFrom([]int{0, 1, int(M) - iohdr - 1, int(M) - iohdr}).Draw(t, "count")
+		r.Knob = rapid.SampledFrom([]int{0, 1, int(M) - iohdr - 1, int(M) - iohdr, int(M) - iohdr, int(M) - iohdr + 1}).Draw(t, "count")
 		if r.Knob < 0 {
 			r.Knob = 0
 		}
@@ -1083,7 +1083,7 @@ func execSess(test string, c *Sess) error {
 }
 
 func TestPropSessions(t *testing.T) {
-	hx.Check(t, "session", hx.N(800, 5000), func(t *rapid.T) {
+	hx.Check(t, "session", hx.N(800, 20000), func(t *rapid.T) {
 		c := genSess(t)
 		if err := execSess("session", c); err != nil {
 			hx.Failf(t, "session", c, "%v", err)
@@ -1326,6 +1326,27 @@ func TestEnumFrameSizes(t *testing.T) {
 	}
 	hx.ExtraAdd("frame_probes", int64(n))
 	hx.Exhaustive("announced frame sizes {0..8, 17, 19, 20, msize-1, msize, msize+1, msize+2, 2*msize, 2^16, 2^31, 2^32-1} x {7-byte header only, header followed by data in one write, in two writes} x dialect x negotiated msize {24, 25, 32, 64, 128, 4096, 8192, 65560, 1 MiB+24 set by the server; 24, 128, 8192 lowered by the client}")
+}
+
+// TestPropFrames draws announced sizes from the whole 32-bit range.
+func TestPropFrames(t *testing.T) {
+	hx.Check(t, "frame", hx.N(150, 3000), func(t *rapid.T) {
+		M := rapid.SampledFrom([]uint32{24, 25, 31, 32, 64, 100, 128, 1000, 4096, 8192, 65560}).Draw(t, "msize")
+		fc := &FrameCase{SrvMsize: M, CliMsize: 0xFFFFFFFF, Dotu: rapid.Bool().Draw(t, "dotu"), Mode: rapid.SampledFrom([]string{"hdr", "full", "split"}).Draw(t, "mode")}
+		if rapid.Bool().Draw(t, "clientlowers") {
+			fc.SrvMsize, fc.CliMsize = 0, M
+		}
+		fc.Size = rapid.OneOf(rapid.Uint32Range(0, 40), rapid.Uint32Range(M-3, M+3), rapid.Uint32Range(M+1, 4*M), rapid.Uint32()).Draw(t, "size")
+		hx.Journal("frame", fc)
+		hx.Eval()
+		hx.Sample("frame", fc)
+		if fc.Size < 7 || fc.Size+1 >= M {
+			hx.NonTrivial("frame", fc.SrvMsize, fc.CliMsize, fc.Dotu, fc.Size, fc.Mode)
+		}
+		if err := finish(runFrame(fc)); err != nil {
+			hx.Failf(t, "frame", fc, "%v", err)
+		}
+	})
 }
 
 // ---------------------------------------------------------------------------
